@@ -200,7 +200,7 @@ def run_patsolve_model(ctx):
         if wf != 'T':
             ctx.disagree('Ps.solve: the model\'s result is not well formed (PT.wf)', case, 'T', wf)
         if closed != 'T':
-            ctx.disagree('Ps.closed: the axis computed by the growth loop is not closed under A / does not cover b (hypothesis of C09d)', case, 'T', closed)
+            ctx.disagree('Ps.closed && Ps.resolved: the axis computed by the growth loop is not closed under A / does not cover b, or the fuel side condition of C09d.patsolve_cells fails', case, 'T', closed)
 
 
 def run(ctx):
